@@ -14,6 +14,8 @@ import b2fcommon as bc
 def run(ctx):
     binary = vlib.build_harness(ctx)
     quick = ctx.tier == "quick"
+    # design: the mechanism model, all policy assignments x both role assignments, clean link
+    vlib.design_check(ctx, bc.SPECDIR, "MCB2F", "B2F_clean.cfg")
     traces = ctx.path("traces.ndjson")
     scen = ctx.path("scen.ndjson")
     accepted = total = 0
